@@ -36,6 +36,8 @@ ALGS = [ALG(a) for a in ("hmac-sha256-128", "hmac-sha384-192", "hmac-sha512-256"
                          "hmac-sha512", "hmac-md5.sig-alg.reg.int")]
 BADTIME = {"terr": 18, "other": [0, 0, 95, 94, 16, 0], "alg": ALG256}   # TSIG error BADTIME with its 6-octet other data
 NOERR = {"terr": 0, "other": [], "alg": ALG256}
+# the message rendered is one PARSED from signed wire (tsig present, not re-signed: a forwarder), not one built fresh
+PARSED = {**NOERR, "src": "parsed"}
 
 
 def tset(xs):
@@ -68,6 +70,9 @@ def configs(extras=True, pads=None, edns=None, keys=None, quick=False):
             for en, ed in EDNS_X.items():
                 for kn in ("none", "shared"):
                     yield en, ed, pad, kn, KEYS[kn], NOERR, pt
+        for pad in ((0, 128) if quick else (0, 16, 128)):
+            for kn in ("shared", "unrelated"):
+                yield "on", EDNS["on"], pad, kn + "-parsed", KEYS[kn], PARSED, pt
         # the other TSIG algorithms (different MAC sizes)
         for pad in ((128,) if quick else (16, 128)):
             for a in ALGS:
@@ -125,11 +130,28 @@ def sweep_jobs():
             sc = [{"op": "hdr", "id": 4660, "opcode": 0, "bits": 256, "rcode": 0, "origin": False, "edns": ed},
                   {"op": "q", "name": [[120] * ln, EX], "type": 1, "cls": 1}, {"op": "end"}]
             for pad in (16, 32, 128):
-                for kn, tx in [("shared", NOERR), ("unrelated", NOERR), ("shared", BADTIME)] + (
+                for kn, tx in [("shared", NOERR), ("unrelated", NOERR), ("shared", BADTIME), ("shared", PARSED)] + (
                         [("shared", {**NOERR, "alg": a}) for a in ALGS] if en == "on" else []):
                     for pt in (False, True):
-                        jobs.append(("sweep.q%d.%s.p%d.%s%d.%s.pt%d" % (ln, en, pad, kn, tx["terr"], bytes(tx["alg"][0]).decode(), pt), sc,
+                        jobs.append(("sweep.q%d.%s.p%d.%s%d.%s%s.pt%d" % (ln, en, pad, kn, tx["terr"], bytes(tx["alg"][0]).decode(), tx.get("src", ""), pt), sc,
                                      {"pad": pad, "key": KEYS[kn], "pt": pt, "max": 512, **tx}))
+    return jobs
+
+
+def big_jobs():
+    """the upper end of the limit: a body just above 64 KiB (two 33 000-octet opaque records) rendered with max_size
+    65535, 65536 and 2^20 (the effective limit is clamped to 65535: too-big, or truncation when preferred)"""
+    big = lambda name: {"op": "rr", "sec": 1, "name": name, "kind": "BIG", "n1": [], "n2": [], "k": 33000, "nrd": 1,
+                        "ttl": [0, 300], "form": "plain"}
+    jobs = []
+    for en in ("off", "on"):
+        sc = [{"op": "hdr", "id": 4660, "opcode": 0, "bits": 256, "rcode": 0, "origin": False, "edns": EDNS[en]},
+              {"op": "q", "name": A_EX, "type": 1, "cls": 1}, big(A_EX), big(B_A_EX), {"op": "end"}]
+        for mx in (65535, 65536, 1 << 20):
+            for pt in (False, True):
+                for kn in ("none", "shared"):
+                    jobs.append(("big.%s.%d.%s.pt%d" % (en, mx, kn, pt), sc,
+                                 {"pad": 0, "key": KEYS[kn], "pt": pt, "max": mx, **NOERR}))
     return jobs
 
 
@@ -185,7 +207,7 @@ def low_level_part(ctx, quick):
     from checks import c03
     from drivers import c03_message
     S = ctx.generate("Gen_Renderer", c03.gen_cfg(ctx, "c08low.cfg", names=tset([2, 3]), targets=tset([3]), kinds=tset(["A", "NS"]),
-                                                 maxrecs=2 if quick else 3, maxes=tset([45, 56])))
+                                                 maxrecs=2 if quick else 3, maxes=tset([45, 150] if quick else [45, 56, 150]), tsigsel=tset([False, True])))
     jobs = [("low%d.%s" % (i, mode), s, mode) for i, s in enumerate(S) for mode in ("low", "lowrds")]
     traces = ctx.pmap(c03_message.run_job, jobs)
     ctx.extra["low_level_traces"] = len(traces)
@@ -230,6 +252,7 @@ def run(ctx):
                                qwant=1 if quick else 3)
         low_level_part(ctx, quick)
         jobs += sweep_jobs()
+        jobs += big_jobs()
         ctx.extra["messages"] = used
         ctx.log("%d messages -> %d renderings" % (used, len(jobs)))
         # drive and validate in batches so that the traces of a thorough run never sit in memory at once
